@@ -388,7 +388,7 @@ theorem passLeaf_functions_eq (scope : ScopeId) (i : Item) (st : St) (hw : WF st
   | function n ps r tag =>
     simp only [passLeaf, leafFn, runL_single, DOp.run]
   | impl ty ch =>
-    simp only [passLeaf, leafFn, runL, DOp.run]
+    simp only [passLeaf, leafFn, runL, DOp.run, implScopeC_fixed]
     cases hs : implScope ty st with
     | ok s => exact declMethods_eq lex ty s ch st hw hs
     | err e => rfl
@@ -402,7 +402,7 @@ theorem passLeaf_constants_eq (scope : ScopeId) (i : Item) (st : St) (hw : WF st
   | constant n ty tag =>
     simp only [passLeaf, leafConst, runL_single, DOp.run]
   | impl ty ch =>
-    simp only [passLeaf, leafConst, runL, DOp.run]
+    simp only [passLeaf, leafConst, runL, DOp.run, implScopeC_fixed]
     cases hs : implScope ty st with
     | ok s => exact declImplConstants_eq lex ty s ch st hw hs (by simpa [QFlat] using hq)
     | err e => rfl
